@@ -109,6 +109,7 @@ class Extracted:
         seg = ast.get_source_segment(mod.source, getattr(node, "source_node", node)) or ""
         self.source = seg
         self.sha256 = hashlib.sha256(seg.encode()).hexdigest()
+        self.decorators = [ast.unparse(d) for d in getattr(node, "decorator_list", [])]
         if isinstance(node, ast.Lambda):
             self.body = [ast.Return(value=node.body)]
             ast.copy_location(self.body[0], node)
